@@ -550,3 +550,4 @@ def run(ctx, rep):
     import c16
     for pw in prog.find(adt="MDK", name="process_welcome", crate="mdk_core"):
         c16.clause_no_refusal_after_write(prog, rep, pw, rule="refused-event-writes")
+        c16.clause_storage_refusal_after_write(prog, rep, pw, rule="refused-event-writes")
